@@ -283,7 +283,25 @@ func cmdWorker(args []string) int {
 		b, _ := json.MarshalIndent(rf, "", " ")
 		os.WriteFile(path, b, 0o644)
 		// replay the file once more, in a fresh process, before reporting
-		if !subprocessReplay(path) {
+		reproduced := subprocessReplay(path)
+		if !reproduced && rf.Rule == "C09.race" {
+			// race reports depend on the detector's shadow state: retry, then fall back
+			// to the unminimised tapes (which produced the report in this process)
+			for k := 0; k < 2 && !reproduced; k++ {
+				reproduced = subprocessReplay(path)
+			}
+			if !reproduced {
+				orig := *rf
+				orig.Tapes = tapesToMap(tape.Snapshot())
+				orig.Minimised = false
+				b, _ := json.MarshalIndent(&orig, "", " ")
+				os.WriteFile(path, b, 0o644)
+				for k := 0; k < 3 && !reproduced; k++ {
+					reproduced = subprocessReplay(path)
+				}
+			}
+		}
+		if !reproduced {
 			st.Trouble = fmt.Sprintf("replay of %s did not reproduce %s/%s", path, rf.Rule, rf.Shape)
 			break
 		}
